@@ -40,7 +40,7 @@ CHECKS = {
    "Trusts the stand-ins for multiprocessing.Process/Manager (fork = deep copy of arguments, one FIFO per manager connection), dyadic model latencies, and that the sequential branch is the specification.",
    "deterministic simulation: seeded scheduler over simulated processes + reference-model comparison", "DESIGN.md §4.1"),
  "C17": chk("C17",
-   "Seeded search over histories of a simulated machine (package data dir, user data dir, home cache, permission table) on which 1-4 simulated OSACA processes, each with a private copy of the package, run the real osaca.osaca.run with every file-system call intercepted: crashes / ENOSPC / EIO / EACCES at chosen events of the cache write, racing cold starts, machine crash cutting un-fsynced files, planted truncated / foreign-version / valid caches, read-only data dir, wipes, user-dir shadowing, model edits, long-lived processes; every report is compared with a cache-less reference; fourteen template histories spelling out the cache histories named by the quantifier; model edits by an external actor DURING a run; atexit handlers of simulated processes; plus a systematic sweep of the crash point over every mutation event of the cache write (single and racing writer, three chunkings). Sampling plus a small exhaustive sweep, not proof. Found and led to the repair of two defects (20d2aa6, d2d0840). Sensitivity: 11 own mutants and 7 seeded changes are caught by the quick tier.",
+   "Seeded search over histories of a simulated machine (package data dir, user data dir, home cache, permission table) on which 1-4 simulated OSACA processes, each with a private copy of the package, run the real osaca.osaca.run with every file-system call intercepted: crashes / ENOSPC / EIO / EACCES at chosen events of the cache write, racing cold starts, machine crash cutting un-fsynced files, planted truncated / foreign-version / valid caches, read-only data dir, wipes, user-dir shadowing, model edits, long-lived processes; every report is compared with a cache-less reference; sixteen template histories spelling out the cache histories named by the quantifier; model edits by an external actor DURING a run and edits that keep the size and time stamps of the file; atexit handlers of simulated processes; plus a systematic sweep of the crash point over every mutation event of the cache write (single and racing writer, three chunkings). Sampling plus a small exhaustive sweep, not proof. Found and led to the repair of two defects (20d2aa6, d2d0840). Sensitivity: 11 own mutants and 7 seeded changes are caught by the quick tier.",
    "Trusts the SimFS layer over real files (pessimistic crash model: un-fsynced data may be cut, renames persist), process isolation by private package copies, trimmed model/ISA files in the 'tiny' batches.",
    "deterministic simulation: simulated file system + crash/IO-error fault injection + racing processes, reference-model comparison per operation", "DESIGN.md §4.2"),
  "C18": chk("C18",
